@@ -217,6 +217,21 @@ Scenario reference_workload(int which, uint64_t seed) {
     return sc;
 }
 
+Knobs knobs_for(const std::string& family) {
+    Knobs k;
+    if (family == "c01-mix") { k.inbound = 3; k.qos_w[0] = 0; k.qos_w[1] = 1; k.qos_w[2] = 1; }
+    else if (family == "c02-mix") { k.faults_max = 3; k.bad_attempts_max = 3; }
+    else if (family == "c03-mix") { k.qos_w[0] = 1; k.qos_w[1] = 1; k.qos_w[2] = 4; k.faults_max = 3; k.rm_choices = {0, 1, 2, 3}; }
+    else if (family == "c04-mix") { k.pubs_max = 4; k.inbound = 8; k.faults_max = 3; k.lose_session_pct = 25; k.subs = 1; }
+    else if (family == "c05-mix") { k.suffix = 15 * SEC; }
+    else if (family == "c06-mix") { k.pubs_min = 2; k.pubs_max = 60; k.burst_pct = 70; k.faults_max = 3; k.qos_w[0] = 2; k.big_payload_pct = 2; k.inbound = 0; k.subs = 0; }
+    else if (family == "c07-mix") { k.pubs_min = 4; k.pubs_max = 30; k.burst_pct = 80; k.rm_choices = {1, 1, 2, 3, 4, 8, 65535}; k.qos_w[0] = 1; k.faults_max = 2; k.ack_delay_max = 200 * MS; k.inbound = 1; k.subs = 0; }
+    else if (family == "c08-mix") { k.pubs_min = 5; k.pubs_max = 40; k.subs = 2; k.unsubs = 2; k.faults_max = 2; k.inbound = 3; }
+    else if (family == "c13-mix") { k.pubs_max = 4; k.subs = 2; k.faults_max = 3; k.lose_session_pct = 60; k.inbound = 2; }
+    else if (family == "c14-mix") { k.pubs_max = 2; k.subs = 3; k.unsubs = 2; k.faults_max = 2; }
+    return k;
+}
+
 void run_mix(Judge& j, const Knobs& k, const std::string& family, uint64_t n) {
     const FamilyCtx& ctx = j.ctx;
     for (uint64_t i = 0; i < n; ++i) {
@@ -231,10 +246,11 @@ void run_mix(Judge& j, const Knobs& k, const std::string& family, uint64_t n) {
     }
 }
 
-void run_sweep(Judge& j, int nworkloads, bool pairs, const std::vector<int>& next_attempts) {
+void run_sweep(Judge& j, int nworkloads, bool pairs, const std::vector<int>& next_attempts, bool only_inbound = false) {
     const FamilyCtx& ctx = j.ctx;
     uint64_t idx = 0;
     for (int wl = 0; wl < nworkloads; ++wl) {
+        if (only_inbound && wl != 2 && wl != 4 && wl != 5) continue;
         CrashSweep sw; sw.base = reference_workload(wl, ctx.seed);
         sw.measure();
         j.res.count("crash_points_total", sw.points() * next_attempts.size());
@@ -330,42 +346,49 @@ int run_families(const FamilyCtx& ctx, vu::Result& res) {
         std::string fam = ctx.args.str("replay-mix");
         uint64_t i = (uint64_t)ctx.args.num("index", 0);
         vu::Rng rng(ctx.seed * 1000003 + vu::fnv(fam) % 100000 + i * 7919);
-        Knobs k;
+        Knobs k = knobs_for(fam);
         Scenario sc = gen_mix(rng, k, fam); sc.seed = ctx.seed; sc.index = i;
         auto ex = execute(sc);
-        printf("%s\n%s\n", sc.describe().c_str(), ex->world->h.dump(3000).c_str());
+        printf("%s\n%s\n", sc.describe().c_str(), ex->world->h.dump(6000).c_str());
+        for (auto& o : ex->world->h.ops)
+            printf("op#%d %s init=%.6f done=%.6f n=%d ec=%s topic=%s r_topic=%s\n", o.id, op_kind_name(o.kind), o.t_init / 1e9, o.t_done / 1e9, o.completions, ec_name(o.ec).c_str(), o.topic.c_str(), o.r_topic.c_str());
         j.judge(sc, *ex);
+        for (auto& v : res.violations) printf("VIOLATION %s %s\n", v.key.c_str(), v.what.c_str());
         return 0;
     }
     if (P == "C01") {
-        Knobs k; k.inbound = 3; k.qos_w[0] = 0; k.qos_w[1] = 1; k.qos_w[2] = 1;
+        Knobs k = knobs_for("c01-mix");
         run_mix(j, k, "c01-mix", T ? 200000 : 4000);
     } else if (P == "C02") {
         run_sweep(j, T ? 6 : 4, T, T ? std::vector<int>{0, 1, 2, 3} : std::vector<int>{0, 2});
-        Knobs k; k.faults_max = 3; k.bad_attempts_max = 3;
+        Knobs k = knobs_for("c02-mix");
         run_mix(j, k, "c02-mix", T ? 60000 : 1500);
     } else if (P == "C03") {
         run_sweep(j, T ? 6 : 3, false, {0});
-        Knobs k; k.qos_w[0] = 1; k.qos_w[1] = 1; k.qos_w[2] = 4; k.faults_max = 3; k.rm_choices = {0, 1, 2, 3};
+        Knobs k = knobs_for("c03-mix");
         run_mix(j, k, "c03-mix", T ? 150000 : 2500);
+    } else if (P == "C04") {
+        run_sweep(j, T ? 6 : 6, false, {0}, /*only_inbound=*/true);
+        Knobs k = knobs_for("c04-mix");
+        run_mix(j, k, "c04-mix", T ? 150000 : 3000);
     } else if (P == "C05") {
         run_idle_sweep(j, T ? 40 : 4, T ? 200 : 90, {0, 1, 2, 3, 4, 5});
-        Knobs k; k.suffix = 15 * SEC;
+        Knobs k = knobs_for("c05-mix");
         run_mix(j, k, "c05-mix", T ? 50000 : 1000);
     } else if (P == "C06") {
-        Knobs k; k.pubs_min = 2; k.pubs_max = 60; k.burst_pct = 70; k.faults_max = 3; k.qos_w[0] = 2; k.big_payload_pct = 2; k.inbound = 0; k.subs = 0;
+        Knobs k = knobs_for("c06-mix");
         run_mix(j, k, "c06-mix", T ? 150000 : 3000);
     } else if (P == "C07") {
-        Knobs k; k.pubs_min = 4; k.pubs_max = 30; k.burst_pct = 80; k.rm_choices = {1, 1, 2, 3, 4, 8, 65535}; k.qos_w[0] = 1; k.faults_max = 2; k.ack_delay_max = 200 * MS; k.inbound = 1; k.subs = 0;
+        Knobs k = knobs_for("c07-mix");
         run_mix(j, k, "c07-mix", T ? 150000 : 3000);
     } else if (P == "C08") {
-        Knobs k; k.pubs_min = 5; k.pubs_max = 40; k.subs = 2; k.unsubs = 2; k.faults_max = 2; k.inbound = 3;
+        Knobs k = knobs_for("c08-mix");
         run_mix(j, k, "c08-mix", T ? 100000 : 2000);
     } else if (P == "C13") {
-        Knobs k; k.pubs_max = 4; k.subs = 2; k.faults_max = 3; k.lose_session_pct = 60; k.inbound = 2;
+        Knobs k = knobs_for("c13-mix");
         run_mix(j, k, "c13-mix", T ? 150000 : 3000);
     } else if (P == "C14") {
-        Knobs k; k.pubs_max = 2; k.subs = 3; k.unsubs = 2; k.faults_max = 2;
+        Knobs k = knobs_for("c14-mix");
         run_mix(j, k, "c14-mix", T ? 150000 : 3000);
     } else {
         res.harness_error = "no simulator family for " + P;
